@@ -431,6 +431,9 @@ func genC05(r *Rand, p *Plan, tier string) {
 			cs.Ops = append(cs.Ops, Op{Kind: "close"})
 		}
 	}
+	if r.Chance(20) {
+		cs.EOFData = true
+	}
 	if r.Chance(12) {
 		// behind a proxying load balancer: the server runs in proxy mode and every packet
 		// is preceded by an HA-proxy ASCII line
